@@ -517,6 +517,13 @@ def sco_container(draw, ver, opts):
     m = M.get(ver)
     n = draw(st.integers(1, 4))
     types = [draw(st.sampled_from(m.sco_types)) for _ in range(n)]
+    if opts.get("ref_rich"):
+        # members chosen so that single- and list-valued object references have right-typed AND wrong-typed targets
+        groups = [["email-addr", "user-account", "file"], ["file", "directory", "ipv4-addr"], ["network-traffic", "ipv4-addr", "artifact", "file"],
+                  ["process", "file", "user-account", "network-traffic", "domain-name"], ["email-message", "email-addr", "artifact", "mutex"],
+                  ["domain-name", "ipv4-addr", "mac-addr"], ["ipv4-addr", "mac-addr", "autonomous-system", "url"], ["windows-registry-key", "user-account", "mutex"]]
+        types = list(draw(st.sampled_from(groups)))
+        n = len(types)
     if ver == "2.0" and "network-traffic" in types and not any(t in types for t in ("ipv4-addr", "ipv6-addr", "mac-addr", "domain-name")):
         types.append(draw(st.sampled_from(["ipv4-addr", "ipv6-addr", "mac-addr", "domain-name"])))   # src_ref/dst_ref need a target
         n += 1
